@@ -108,7 +108,9 @@ func Compile(system string, fn Fn, nIn, nOut, pad int, wrap func(frontend.NewBui
 	if wrap != nil {
 		nb = wrap(nb)
 	}
-	cs, e := frontend.Compile(ecc.BN254.ScalarField(), nb, shell(fn, nIn, nOut, pad))
+	var cs constraint.ConstraintSystem
+	var e error
+	harn.Protect(func() { cs, e = frontend.Compile(ecc.BN254.ScalarField(), nb, shell(fn, nIn, nOut, pad)) })
 	if e != nil {
 		return nil, e
 	}
@@ -178,5 +180,6 @@ func GnarkEngine(fn Fn, in, out []*big.Int) (err error) {
 	for i := range out {
 		a.Out[i] = out[i]
 	}
-	return test.IsSolved(c, a, ecc.BN254.ScalarField())
+	harn.Protect(func() { err = test.IsSolved(c, a, ecc.BN254.ScalarField()) })
+	return err
 }
